@@ -605,8 +605,16 @@ def read_failures(h):
     resets = calls(W, "reset_connection")
     h.oblige("nothing is delivered from a failed frame", len(calls(W, "_notify_message_received")) == 0)
     if kind == "IncompleteReadError":
-        # state after the suspension is arbitrary: the code resets iff a writer exists that is not closing
+        # state after the suspension is arbitrary: the code must reset iff a writer exists that is not closing
+        # (EOF from the peer on the connection in use), and must not when the socket itself gave the connection up
         h.oblige("EOF: at most one reset", len(resets) <= 1)
+        wr = sock.attrs["_writer"]
+        peer_closed = False if wr is None else Not(wr.closing)
+        if h.branch(peer_closed):
+            h.oblige("EOF from the peer on the connection in use resets the connection (the client must come back after a peer close)",
+                     len(resets) == 1)
+        else:
+            h.oblige("EOF on a connection the socket itself gave up (no writer, or closing) does not reset again", len(resets) == 0)
     else:
         h.oblige("the failure is followed by exactly one connection reset", len(resets) == 1)
 
